@@ -12,6 +12,10 @@
 //!       written before the node record) are followed as far as the code allows (regression, these
 //!       directed cases run first); seeded random schedules with the WF monitor at quiescence.  The scheduler's `choose` mirrors the list
 //!       lock (`LockMirror`) so that it does not grant a thread that would run into a held stripe.
+//!       Batch calls run under the scheduler too: `regress.batch_vs_writer.*` (every cut point of a batch
+//!       call against a writer of the same list, first on every run), `conc.batch_hub` (probing schedules,
+//!       shrinker); the list lock has its own regression oracle on the real yield trace
+//!       (`graph_engine.edge_list_lock/list_update_not_exclusive`).
 use graph_engine::{Direction, EdgeInput, GraphEngine, GraphError, NodeInput, Pagination, PropertyValue};
 use nverif::sched::{run_threads, Step};
 use nverif::*;
@@ -2369,6 +2373,74 @@ fn main() {
     }
 
     lap("conc.disjoint done");
+    // ---------------- (ii-b') NOT under the scheduler (real concurrency): delete_node of a hub with >= 100
+    //                  edges (its per-edge clean-up runs on the rayon pool, which has no yield hook) while a
+    //                  second client thread runs batch_create_edges / create_edge / delete_edge among the
+    //                  SPOKES: both sides update the spokes' lists.  No edge of the second thread touches the
+    //                  hub, so the node-deletion race is not involved: any WF break is a violation.
+    let mut r = root.fork("conc.unscheduled.big_hub_vs_batch");
+    for _ in 0..4 * scale {
+        let g = Arc::new(new_engine());
+        let spokes = 3 + r.below(3);
+        let total = 100 + r.below(20);
+        let mut setup: Vec<Op> = vec![Op::CNode { l: 0, v: 0 }, Op::BCN((0..spokes).map(|_| (1, 0)).collect())];
+        setup.push(Op::BCE(
+            (0..total)
+                .map(|k| {
+                    let other = 2 + (k % spokes);
+                    let (a, b) = if r.chance(1, 2) { (1, other) } else { (other, 1) };
+                    (a, b, r.chance(2, 3), 0, 0)
+                })
+                .collect(),
+        ));
+        // a few spoke-to-spoke edges the second client may delete (ids total+1 ..)
+        let extra = 2 + r.below(3);
+        setup.push(Op::BCE((0..extra).map(|_| (2 + r.below(spokes), 2 + r.below(spokes), r.chance(1, 2), 1, 0)).collect()));
+        for op in &setup {
+            exec(&g, op);
+        }
+        let client: Vec<Op> = (0..2 + r.below(3))
+            .map(|_| {
+                let w = r.below(100);
+                if w < 55 {
+                    Op::BCE((0..1 + r.below(4)).map(|_| (2 + r.below(spokes), 2 + r.below(spokes), r.chance(1, 2), 1, 1)).collect())
+                } else if w < 80 {
+                    Op::CEdge { a: 2 + r.below(spokes), b: 2 + r.below(spokes), d: r.chance(1, 2), ty: 1, v: 1 }
+                } else {
+                    Op::DEdge(total + 1 + r.below(extra))
+                }
+            })
+            .collect();
+        std::thread::scope(|sc| {
+            let g1 = g.clone();
+            let g2 = g.clone();
+            let cl = client.clone();
+            sc.spawn(move || {
+                exec(&g1, &Op::DNode(1));
+            });
+            sc.spawn(move || {
+                for op in &cl {
+                    exec(&g2, op);
+                }
+            });
+        });
+        let im = image_of(&g);
+        let breaks = im.wf_breaks();
+        rep.hit(if breaks.is_empty() { "conc.unscheduled.big_hub_vs_batch.quiescent_wf_ok" } else { "conc.unscheduled.big_hub_vs_batch.quiescent_wf_broken" });
+        if let Some((kind, detail)) = breaks.first() {
+            let mut all = client.clone();
+            all.push(Op::DNode(1));
+            let c = classify(kind, detail, &all, &im, &HashMap::new());
+            let c = if c == "graph_engine.create_edge/edge_to_deleted_node" { "graph_engine.delete_node/parallel_path_vs_second_client".to_string() } else { c };
+            rep.violation(
+                &c,
+                &format!("graph not well-formed after delete_node of a >=100-edge hub (rayon path) ran next to a second client working among the spokes (not schedule-controlled): {kind}: {detail}"),
+                json!({"setup": ops_json(&setup), "threads": [["dnode 1"], ops_json(&client)], "final_image": im.text()}),
+            );
+        }
+        rep.case("conc.unscheduled.big_hub_vs_batch", Some(&format!("{}|{}", ops_json(&setup), ops_json(&client))));
+    }
+    lap("conc.unscheduled done");
     // ---------------- (ii-c) overlapping operations, seeded random schedules
     let mut r = root.fork("conc.random");
     for i in 0..600 * scale {
@@ -2392,6 +2464,8 @@ fn main() {
         "conc.threads.2", "conc.threads.8",
         "regress.create_node.ends_node_not_found_or_well_formed",
         "regress.create_node.cut_after_0_store_calls", "regress.create_node.cut_after_3_store_calls",
+        "regress.batch_vs_writer.batch_first", "regress.batch_vs_writer.batch_second", "regress.batch_vs_writer.well_formed",
+        "conc.batch_hub.quiescent_wf_ok", "conc.unscheduled.big_hub_vs_batch.quiescent_wf_ok",
 
     ]
     .iter()
@@ -2403,7 +2477,9 @@ fn main() {
     rep.note("outside the property's quantifier (observation, not violation): graph_engine.delete_edge/edge_still_being_created (Props.delete_edge_of_edge_in_creation_race_witness; needs a preemption between create_edge's store.put of the record and its first lock acquisition, which is not a yield point: not replayable under the scheduler; the id of an edge whose create_edge has not returned can only be guessed); stream conc.fresh_ids runs programs that name ids handed out during the concurrent phase, batch calls included");
     rep.note("a concurrent case is not compared with the model (conc.not_compared.node_id_order_not_scheduled, WF oracle still applied) when >= 2 threads create nodes, some thread waited on a real lock during the run, and the real results / traces / image differ from the model's in numbers only: the waiting thread resumes while the releasing thread is still running and the order of their node_counter.fetch_add is then not scheduled");
     rep.note("delete_node's >=100-edge path runs on rayon pool threads that the deterministic scheduler does not control; it is exercised only by the sequential stream (real concurrency, not schedule-controlled); since the list lock every such script must be well-formed (class graph_engine.delete_node/parallel_path_lost_removal is a regression oracle)");
-    rep.note("not modelled: property/label index contents, constraints, weak-memory effects inside one TensorStore call; batch operations, add_label / remove_label and re-opening (GraphEngine::with_store over the same store) are exercised sequentially only");
+    rep.note("batch calls under the scheduler: directed cases regress.batch_vs_writer.* (a batch call against a writer of the same adjacency list - create_edge, delete_edge, delete_node of a neighbour or of the hub, another batch call - with thread 0 granted k store calls before thread 1 runs as far as it can, every k, both role orders; first on every run), stream conc.batch_hub (probing schedules: a thread about to take a list lock that LockMirror says is held is granted every third time; violations are shrunk), conc.fresh_ids; yield traces, results and final image are compared with the model's step lists (batch_delete_nodes with the edge order of each of its delete_node calls read off the trace). Regression oracle of the list lock in every concurrent stream: a WF break on a list that two threads had read and not yet written back at the same time (rmw_sections / rmw_overlaps on the real yield trace; Lean: list_rmw_sections_exclusive) is the violation graph_engine.edge_list_lock/list_update_not_exclusive, evaluated BEFORE a break is attributed to a known finding; overlapping sections without a WF break are recorded as an observation");
+    rep.note("conc.unscheduled.big_hub_vs_batch: delete_node of a >=100-edge hub (rayon path, not schedule-controlled) next to a second client thread that creates / deletes edges among the spokes (batch_create_edges, create_edge, delete_edge): real concurrency, WF oracle only");
+    rep.note("not modelled: property/label index contents, constraints, weak-memory effects inside one TensorStore call; add_label / remove_label, batch_update_nodes and re-opening (GraphEngine::with_store over the same store) are exercised sequentially only");
     if let Ok(c) = CAUSES.lock() {
         for (i, name) in ["storage", "not_found", "partial", "unclassified_wording"].iter().enumerate() {
             if c[i] > 0 {
